@@ -136,3 +136,78 @@ def targ(t: Term, name: str, i: int = None):
     if i is not None and i < len(t.args):
         return t.args[i]
     return None
+
+
+class ModSpec:
+    """evaluate specification snippets in the namespace of a repository module (so that `np`, `CubicSpline`, repo helpers
+    resolve exactly as in the code); repo callees are kept uninterpreted unless `inline` says otherwise"""
+
+    def __init__(self, prog: Program, modname: str, env: Dict[str, Val], inline=None):
+        self.ev = Evaluator(prog, inline=inline or (lambda f: False), opaque_kind=REPO_RESULT_KIND)
+        mi = prog.modules.get(modname)
+        if mi is None:
+            raise AnalysisError(f"module {modname} not found")
+        self.ev.frames.append(Frame(None, mi))
+        self.st = State(dict(env))
+
+    def exec(self, src: str):
+        self.ev.exec_block(ast.parse(src).body, self.st)
+        if self.ev.issues:
+            raise AnalysisError(f"specification not canonicalisable: {self.ev.issues}")
+
+    def val(self, src: str) -> Val:
+        v = self.ev.eval(ast.parse(src.strip(), mode='eval').body, self.st)
+        if self.ev.issues:
+            raise AnalysisError(f"specification not canonicalisable: {src}: {self.ev.issues}")
+        return v
+
+
+def arr_term(v):
+    """the underlying term of an opaque array value (for structural comparison irrespective of the element-wise wrapper)"""
+    if isinstance(v, Num) and v.length is not None:
+        atoms = v.r.atoms()
+        if len(atoms) == 1:
+            (a,) = atoms
+            if sym.ATOMS.head(a) == 'el' and sym.ATOMS.args(a)[1] == sym.idx() and v.r == Rat.atom(a):
+                ref = sym.ATOMS.args(a)[0]
+                if isinstance(ref, Ref) and ref.term is not None:
+                    return ref.term
+    return v
+
+
+def same(a, b) -> bool:
+    return veq(arr_term(a), arr_term(b))
+
+
+def unused_params(mf, skip=('self',)) -> List[str]:
+    """parameters of a method whose symbolic value reaches no call argument, store, guard or result"""
+    used = set()
+    vals = [mf.result] + [e.data['value'] for e in mf.stores]
+    for e in mf.ev.events:
+        for k in ('pos', 'kw', 'bound', 'recv', 'value', 'star_kw'):
+            d = e.data.get(k)
+            if isinstance(d, dict):
+                vals += [v for v in d.values() if isinstance(v, Val)]
+            elif isinstance(d, list):
+                vals += [v for v in d if isinstance(v, Val)]
+            elif isinstance(d, Val):
+                vals.append(d)
+        vals += list(e.guard)
+    texts = ' '.join(str(v) for v in vals if v is not None)
+    out = []
+    for p, v in mf.params.items():
+        if p in skip:
+            continue
+        tag = None
+        if isinstance(v, Num) and v.length is None:
+            tag = sym.show(v.r)
+        elif isinstance(v, Num):
+            tag = str(arr_term(v)) if arr_term(v) is not v else None
+            if tag is None:
+                ats = [a for a in v.r.atoms() if sym.ATOMS.head(a) == 'el']
+                tag = str(sym.ATOMS.args(ats[0])[0]) if ats else None
+        elif isinstance(v, Term):
+            tag = str(v)
+        if tag and tag not in texts:
+            out.append(p)
+    return out
